@@ -347,7 +347,10 @@ P("C10",
   rule="layout x mode x source mix x encryption policy x start mode x nuisance behaviours; non-trivial = multi-file / padded / short-last-piece layout, or nuisance peers, magnet, encryption, or a bad web seed",
   assumptions=["the honest seeder is generated compatible with the client's encryption policy (the property assumes a reachable source)"],
   units=[
-   U("c10.download", "c10", "TestDownload", "download completes with correct files whenever an honest full source is reachable", Q(320, 8, 900), T(12000, 16), min_nontrivial_frac=0.5, shrinktime="40s"),
+   U("c10.download", "c10", "TestDownload", "a real leeching session (generated layout, picker mode, encryption policy, .torrent or magnet) with an honest scripted seeder and/or honest web seed among 0-3 nuisance peers "
+     "(never unchoke, choke cycles, choke or go silent for good, disconnect, stall, corrupt, duplicate, a yourip liar) and a bad web seed (corrupting / truncating / 404): the download "
+     "completes with byte-identical files; otherwise a stuck-state predicate decides (honest source connected, unchoking and idle for a further 4 s); in peer-only cases no 2.5 s window in "
+     "which the honest seeder is idle while a piece is incomplete and nobody holds or received a request for it", Q(320, 8, 900), T(12000, 16), min_nontrivial_frac=0.5, shrinktime="40s"),
    U("c10.wsretry", "c10", "TestWSRetry",
      "the only source is an honest web seed whose first answer fails (503 / 404 / body cut short): after the client's one-minute retry period the download finishes "
      "(one case takes a little over a minute by construction: 2 cases in the quick tier, 32 in the thorough tier, all in parallel)",
